@@ -63,8 +63,25 @@ def trace():
     shim.load(FILE, ['primaries_to_lms', 'lms_to_primaries', 'second_to_third_stage'], ns2, cls='display_color_hvs')
     me = _Self()
     tm = shim.sym('tm', (3, 3))
-    tm.pinverse = lambda: shim.sym('tp', (3, 3))
     me.lms_tensor = tm
+    # every spelling of the pseudo-inverse of the cone-response matrix -- x.pinverse(), torch.pinverse(x),
+    # torch.linalg.pinv(x), also on a cast / view / copy of it -- is the same uninterpreted 3 x 3 matrix tp;
+    # the pseudo-inverse of anything else is refused
+    tm_names = [[e.a[0] for e in row] for row in tm.tolist()]
+    def pinv_of_lms(x, *a, **k):
+        got = [[(e.a[0] if isinstance(e, shim.E) and e.op == 'var' else None) for e in row] for row in shim.wrap(x).tolist()] \
+            if getattr(x, 'shape', None) == (3, 3) else None
+        if got != tm_names:
+            raise shim.TraceError('pseudo-inverse of something other than lms_tensor')
+        return shim.sym('tp', (3, 3))
+    tm.pinverse = lambda *a, **k: pinv_of_lms(tm)
+    tm.pinv = tm.pinverse
+    tdict = ns2['torch'].__dict__
+    tdict['pinverse'] = pinv_of_lms
+    tdict['linalg'].__dict__['pinv'] = pinv_of_lms
+    # method spelling on a tensor that is not the tm object itself (view, clone): T.__getattr__ falls back to these
+    shim._TORCH_FUNCS['pinverse'] = pinv_of_lms; shim._TORCH_FUNCS['pinv'] = pinv_of_lms
+    shim._METHOD_FALLBACK_NAMES.update(['pinverse', 'pinv'])
     x = shim.sym('x', (NB, 3, 1, NW))
     y = ns2['primaries_to_lms'](me, x.clone())
     assert y.shape == (NB, 3, 1, NW)
